@@ -94,6 +94,9 @@ func (w *walker) message(path string, td *dproto.TypeDescriptor, rmd protoreflec
 	w.n++
 	md := td.Message()
 	rfs := rmd.Fields()
+	if md.FieldsCount() != rfs.Len() {
+		c.Failf("field-count", "%s (%s): FieldsCount()=%d, the schema declares %d fields", path, rmd.FullName(), md.FieldsCount(), rfs.Len())
+	}
 	maxNum := 0
 	for i := 0; i < rfs.Len(); i++ {
 		if n := int(rfs.Get(i).Number()); n > maxNum {
@@ -435,7 +438,7 @@ func genSchema(t *rapid.T) pmodel.Schema {
 
 var Prop = pbt.Register(pbt.Prop[Case]{
 	Name: "TestProtoDescriptors",
-	Rule: "generated proto3 files (main package + imported package; nested message declarations; field names whose 32-bit DJB hash is 0, also as the only field of a message; the simple name Item declared in up to five scopes: A.Item, A.Item.Item, B.Item, pkg.Item, other.sub.Item; map fields with equal names in different messages; relative, qualified and fully-qualified type references; recursion; every map key kind; 1..3 services with unary/streaming methods) x ParseServiceMode; the dynamicgo descriptor graph is walked in parallel with protobuf-go's descriptors (built from jhump protoparse output): method set and streaming flags, per reachable message exactly the declared fields (number, name, JSON name, kind, list/map structure, packedness, key kind), message-typed fields must describe the fully-qualified type the schema names; ByNumber over 0..max+2 (field numbers up to 131073), over every declared number shifted by multiples of 2^16 / 2^24 / 2^28 and negated, and ByName/ByJSONName over a key family must find a field iff declared; non-trivial = a simple message name reached under two different full names",
+	Rule: "generated proto3 files (main package + imported package; nested message declarations; field names whose 32-bit DJB hash is 0, also as the only field of a message; the simple name Item declared in up to five scopes: A.Item, A.Item.Item, B.Item, pkg.Item, other.sub.Item; map fields with equal names in different messages; relative, qualified and fully-qualified type references; recursion; every map key kind; 1..3 services with unary/streaming methods) x ParseServiceMode; the dynamicgo descriptor graph is walked in parallel with protobuf-go's descriptors (built from jhump protoparse output): method set and streaming flags, per reachable message exactly the declared fields (their count, number, name, JSON name, kind, list/map structure, packedness, key kind), message-typed fields must describe the fully-qualified type the schema names; ByNumber over 0..max+2 (field numbers up to 131073), over every declared number shifted by multiples of 2^16 / 2^24 / 2^28 and negated, and ByName/ByJSONName over a key family must find a field iff declared; non-trivial = a simple message name reached under two different full names",
 	Gen: func(t *rapid.T) Case {
 		return Case{Schema: genSchema(t), Mode: rapid.IntRange(0, 2).Draw(t, "mode")}
 	},
